@@ -8,7 +8,7 @@ MC_DomH5 == {9}
 MC_DomHDKG == {4}
 MC_DomHR == {3}
 MC_DomHID == {1}
-MC_Probes == {"dealer","dkg1","single","repair","refresh","rr","batch"}
+MC_Probes == {"dealer","dkg1","rdkg1","single","repair","refresh","rr","batch"}
 MC_Vals == 0..6
 MC_NZVals == {2,5}
 MC_MaxZeros == 2
